@@ -5,11 +5,18 @@
 (* One initial state per trace.  Trace[1] is a start record (cs, cl, mx, w  *)
 (* = chunk start/limit, first refused number, window size); every further   *)
 (* record is one API-level event:                                           *)
-(*   k    "load" | "protect" | "unprotect" | "clean" | "crash"              *)
+(*   k    "load" | "protect" | "unprotect" | "clean" | "crash" |            *)
+(*        "respond" (a response to the accepted request rn is protected) |  *)
+(*        "echoerr" (the 4.01 + Echo for the rejected request rn is         *)
+(*        rendered) | "response" (the peer's response to a request of this  *)
+(*        lifetime, with partial IV n or without, n = -1, is unprotected)   *)
 (*   out  load: "ok"; protect: "issued" | "refused" | "crashed";            *)
 (*        unprotect: "accept" | "reject" | "crashed"; clean: "done" |       *)
-(*        "crashed"; crash (between operations): "crashed"                  *)
+(*        "crashed"; crash (between operations): "crashed";                 *)
+(*        respond / echoerr: "issued" (own number n) | "reused" (nonce of   *)
+(*        request n) | "refused" | "crashed"; response: "ok" | "reject"     *)
 (*   n    issued number / request number;  echo  "none" | "stale" | "fresh" *)
+(*   rn   respond / echoerr: the request concerned (-1 otherwise)           *)
 (*   c    file-system effects of _store completed before the crash          *)
 (*   ssn, winit, dex, dnext, dunk, tmp   projection after the event:        *)
 (*        memory sender_sequence_number (-1 dead), window initialised,      *)
@@ -39,6 +46,14 @@ TInit == /\ tid \in 1..Len(Traces)
 
 Ev(k, e) == Step(k, e.n, e.echo)
 
+(* a message that needs a number of the context's own *)
+Issue(s0, kind, e) ==
+  IF Refuses(s0) THEN [st |-> s0, out |-> "refused", n |-> e.n]
+  ELSE LET b == BeginIssue(s0, kind)
+       IN IF e.out = "crashed" /\ b.op.step < 4
+            THEN [st |-> CrashAfter(b, e.c), out |-> "crashed", n |-> e.n]
+            ELSE [st |-> RunToEnd(b), out |-> "issued", n |-> s0.ssn]
+
 (* model's successor state and predicted outcome for a recorded event *)
 Predict(e) ==
   CASE e.k = "load" -> [st |-> Load(s), out |-> "ok", n |-> e.n]
@@ -49,8 +64,13 @@ Predict(e) ==
               IN IF e.out = "crashed" /\ b.op.step < 4
                    THEN [st |-> CrashAfter(b, e.c), out |-> "crashed", n |-> e.n]
                    ELSE [st |-> RunToEnd(b), out |-> "issued", n |-> s.ssn]
+    [] e.k = "respond" ->
+         IF ReusesNonce(s, e.rn) THEN [st |-> RespondReusing(s, e.rn), out |-> "reused", n |-> e.rn]
+         ELSE Issue(s, "respond", e)
+    [] e.k = "echoerr" -> Issue([s EXCEPT !.err = FALSE], "echoerr", e)
+    [] e.k = "response" -> [st |-> Response(s, e.n), out |-> "ok", n |-> e.n]
     [] e.k = "unprotect" ->
-         IF ~Accepts(s, e.n, e.echo) THEN [st |-> s, out |-> "reject", n |-> e.n]
+         IF ~Accepts(s, e.n, e.echo) THEN [st |-> Rejected(s, e.n), out |-> "reject", n |-> e.n]
          ELSE LET b == BeginUnprotect(s, e.n, e.echo)
               IN IF e.out = "crashed" /\ b.op.step < 4
                    THEN [st |-> CrashAfter(b, e.c), out |-> "crashed", n |-> e.n]
@@ -66,6 +86,7 @@ Monitor(o, e) ==
   CASE e.k = "load" -> ObsEvent(o, Ev("load", e))
     [] e.out = "crashed" -> ObsEvent(o, Ev("crash", e))
     [] e.out = "issued" -> ObsEvent(o, Ev("issued", e))
+    [] e.out = "reused" -> ObsEvent(o, Ev("reused", e))
     [] e.out = "refused" -> ObsEvent(o, Ev("refused", e))
     [] e.out = "accept" -> ObsEvent(o, Ev("accept", e))
     [] e.out = "reject" -> ObsEvent(o, Ev("reject", e))
